@@ -85,7 +85,7 @@ CHECKS['C11'] = dict(cat='model_checking', ref='5/C11',
     tech='TLA+ slot model of marshal/restore; TLC enumeration; replay on real injector; field-wise comparison after config.Load; TLC evaluation')
 
 CHECKS['C03'] = dict(cat='model_checking', ref='5/C03',
-    text='spec/Kvass.tla is the closed loop of one replica: sidecar state records (Sidecar.tla operators), StatefulSet scale, the coordinator cycle as the step-by-step actions of Rebalance.tla fed from the sidecars\' reports and applied to them, scrape rounds, discovery, explorer estimates, target sizes / liveness, clock; it is model-checked exhaustively in a small configuration: safety (no gap, also across the coordinator\'s own scale-downs) over every interleaving, and liveness - eventually converged for good - under weak fairness of the cycle and strong fairness of scrape rounds and probes. Closed-loop runs on the REAL Coordinator with REAL sidecars (service, targets manager + store, injector, proxy; simulated Prometheus, StatefulSet, targets) follow seeded schedules (discovery, probes, cycles, scrape rounds, targets added / removed / growing / going down, then 10 quiet rounds); TLC validates every run step by step against Kvass.tla (KvassTrace: environment steps deterministic, a cycle must be able to end in the recorded world through some order of the coordinator\'s internal steps) and evaluates on the recorded worlds: converged at the end of the quiet tail (every eligible target on exactly one shard in normal state, no transfer pending, no undiscovered or oversized target assigned), the last cycle changes nothing, no gap in which a held, discovered target is held by nobody; and on every cycle the coordinator ran: an eligible unplaced target with all shards in sync makes the request exceed the current count.',
+    text='spec/Kvass.tla is the closed loop of one replica: sidecar state records (Sidecar.tla operators), StatefulSet scale, the coordinator cycle as the step-by-step actions of Rebalance.tla fed from the sidecars\' reports and applied to them, scrape rounds, discovery, explorer estimates, target sizes / liveness, clock; it is model-checked exhaustively in a small configuration: safety (no gap, also across the coordinator\'s own scale-downs) over every interleaving, and liveness - eventually converged for good - under weak fairness of the cycle and strong fairness of scrape rounds and probes. Closed-loop runs on the REAL Coordinator with REAL sidecars (service, targets manager + store, injector, proxy; simulated Prometheus, StatefulSet, targets) follow schedules drawn by TLC from the specification itself (SimKvass.tla: simulated behaviours of Kvass.tla, their externally driven steps replayed) and seeded directed schedules (discovery, probes, cycles, scrape rounds, targets added / removed / growing / going down, arbitrary initial placements, relief transfers and what they meet), each followed by 10 quiet rounds; TLC validates every run step by step against Kvass.tla (KvassTrace: environment steps deterministic, a cycle must be able to end in the recorded world through some order of the coordinator\'s internal steps) and evaluates on the recorded worlds: converged at the end of the quiet tail (every eligible target on exactly one shard in normal state, no transfer pending, no undiscovered or oversized target assigned), the last cycle changes nothing, no gap in which a held, discovered target is held by nobody; and on every cycle the coordinator ran: an eligible unplaced target with all shards in sync makes the request exceed the current count.',
     note='Convergence is judged after 10 change-free rounds of (cycle, 3 scrape rounds per shard); eligible targets are generated so that they fit into max-shard shards.',
     tech='TLA+ closed-loop model composed of Rebalance + Sidecar specs; TLC exhaustive small model; trace validation of real closed-loop runs with silent coordinator steps; TLC evaluation of run formulas')
 CHECKS['C06'] = dict(cat='model_checking', ref='5/C06',
